@@ -20,7 +20,8 @@ class C12(Prop):
     trace_module = "Trace_Schedule"
     exhaustive = True
     rule = ("complete: all 127 non-empty weekday sets in each accepted input form (single day, set, duplicate-free list and "
-            "tuple in two orders), the empty forms, all sequences of length <= 3 with and without duplicates, all mask values "
+            "tuple in two orders), the empty forms, all sequences of length <= 3 with and without duplicates, sequences of 4..14 entries "
+            "with duplicates (among them exactly seven entries), deques and UserLists, all mask values "
             "-2..300 for the decoder. distinct = distinct (input, outcome); non-trivial = not the empty input")
     assumptions = ["odd masks inside 3..253 are not constrained by the statement (it only rejects outside 2..254)"]
 
@@ -41,6 +42,15 @@ class C12(Prop):
                 enc.append(("list", list(seq)))
                 enc.append(("tuple", list(seq)))
         enc.append(("list", [0, 1, 2, 3, 4, 5, 6, 0]))
+        # duplicates hidden by the LENGTH of the sequence: as many entries as there are days (or as a set of some size has)
+        for form in ("list", "tuple", "deque", "userlist"):
+            for d in range(7):
+                enc.append((form, [d] * 7))
+                enc.append((form, [x for x in range(7) if x != d] + [(d + 1) % 7]))
+                enc.append((form, [d] * 6))
+                enc.append((form, [d, (d + 1) % 7] * 4))
+            for n in (4, 5, 6, 7, 8, 14):
+                enc.append((form, [ctx.rng.randrange(7) for _ in range(n - 1)] + [0, 0][:1] + [0]))
         enc.append(("frozenset", [1, 3]))
         # sequences that are neither list nor tuple (a deque, a UserList), with and without duplicates
         for form in ("deque", "userlist"):
@@ -322,9 +332,55 @@ class C13(Prop):
             out.append({"zone": z, "date": [2026, 9, 21], "pairs": base[:6], "sec": 0})
             out.append({"zone": z, "date": [2026, 12, 31], "pairs": [(1439, 0), (1439, 1439), (0, 0)], "sec": 59})
             out.append({"zone": z, "date": [2027, 1, 1], "pairs": [(0, 0), (0, 1), (1, 0)], "sec": 0})
+        # a call takes time: every line of library code costs 50 ms here, and midnight falls after the n-th line of the call
+        for z in zones[:3]:
+            out.append({"zone": z, "date": [2026, 9, 29], "ticking": True, "pairs": [], "sec": 0})
+            out.append({"zone": z, "date": [2026, 12, 31], "ticking": True, "pairs": [], "sec": 0})
         return out
 
+    def _ticking(self, scn):
+        """Midnight passes WHILE pretty_next_run runs: the answer is the one for 23:59 of the old day or the one for 00:00 of
+        the new day, never the old weekday with the new time of day."""
+        import sys
+        from aioswitcher.schedule.tools import pretty_next_run
+        D = _days_enum()
+        z = scn["zone"]
+        y, m, d = scn["date"]
+        evs = []
+        step = 0.05
+        with host_zone(z), frozen(0.0) as clk:
+            midnight = local_instant(z, y, m, d, 23, 59, 59) + 1
+            rules = zone_rules(z, midnight - 30)
+            wd_old = datetime.fromtimestamp(midnight - 30).weekday()
+
+            def local(frame, event, arg):
+                if event == "line":
+                    clk.shift(step)
+                return local
+
+            def tr(frame, event, arg):
+                return local if "aioswitcher" in frame.f_code.co_filename else None
+            for n in range(0, 60):                      # midnight falls after the n-th line executed
+                for days in ([wd_old], [(wd_old + 1) % 7], [wd_old, (wd_old + 1) % 7], [(wd_old + 2) % 7], list(range(7))):
+                    for st in ("00:00", "00:01", "23:59", "12:00"):
+                        t0 = midnight - n * step - step / 2
+                        clk.move_to(t0)
+                        ds = {D[x] for x in days}
+                        old = sys.gettrace()
+                        sys.settrace(tr)
+                        try:
+                            txt = pretty_next_run(st, ds)
+                        finally:
+                            sys.settrace(old)
+                        import time as _t
+                        t1 = _t.time()
+                        evs.append({"ev": "Next", "zone": rules, "now": int(t0 // 1), "now2": int(t1 // 1), "start": text(st), "days": days,
+                                    "text": text(txt), "after": sorted(x.weekday for x in ds)})
+        return evs
+
     def execute(self, scn):
+        if scn.get("ticking"):
+            return self._ticking(scn)
         from aioswitcher.schedule.parser import SwitcherSchedule
         from aioswitcher.schedule.tools import pretty_next_run
         D = _days_enum()
